@@ -104,6 +104,16 @@ check(
     "DESIGN.md 4/C11",
 )
 
+check(
+    "C09",
+    "other",
+    "bounded symbolic verification of the two hinges of option/cache consistency: (K1) replay-path equivalence - the real Errors.file_messages/sort/remove_duplicates/render_messages/simplify_path/format_messages_default run under an Options proxy whose every attribute read is a fresh symbolic value per run, keyed options (OPTIONS_AFFECTING_CACHE, re-read from the source) equal in both runs; what a warm run replays (rendered under the old options, formatted under the new) must equal what a cold run prints; (K2) two symbolic option vectors differing on any keyed bool option have different snapshots. Completeness of the key with respect to options read inside the semantic analyser/checker is NOT claimed (whole-program).",
+    "trusted: z3; snapshot hash injective; same working directory in both runs; non-bool options at defaults in K1",
+    "symbolic execution of real Python source with z3 (decision-replay) under a recording options proxy; replay = two real runs sharing a cache vs a cold run",
+    "DESIGN.md 4/C09",
+    thorough=False,
+)
+
 ALL = [f"C{i:02d}" for i in range(1, 21)]
 
 
